@@ -17,6 +17,7 @@ HIST_CONFIGS = [
     ("P:char,P:u32@8", ["s000"]),
     ("P:Tr8,P:u16,P:str", ["s010", "e001"]),
     ("P:bool,P:enumE,P:ptr,P:B12@4", ["s111"]),
+    ("P:Amp8,F:Amp8,P:u8", ["s000"]),  # a value type with an overloaded unary &
     # FixedSize only
     ("P:u32,F:f32", ["s000", "e100"]),
     ("F:f32,P:u32,F:f32", ["std"]),
@@ -36,20 +37,23 @@ HIST_CONFIGS = [
     ("C:u16,V:B3,C:u32,V:u64@8", ["std"]),
     ("C:u64,V:u8,P:u64@8", ["s001"]),
     ("C:u64@8,V:uptr,P:uptr", ["s000"]),
-    ("C:u64@8,V:str,P:str", ["s000", "stdm"]),
+    ("C:u64@8,V:str,P:str", ["s000", "stdm", "s000d"]),
     ("C:u32,V:Tr4,P:Tr24", ["s000", "s110", "e111"]),
     ("P:u8,C:u16,V:Tr8@8,P:TrMv8", ["s010"]),
+    ("P:Ctm8,C:u32,V:Ctm8", ["s000"]),  # trivial copy constructor, user-provided move constructor
+    ("C:u16,V:bptr,P:bptr", ["std"]),   # pointers to a base class at a non-zero offset (sources: pointers to derived)
     # mixed
     ("F:f32,P:u32,C:u64@8,V:f32", ["s000", "e100"]),
     ("F:f32@16,P:u32,C:u64@8,V:f32@8", ["std"]),
     ("F:Tr8,C:u8,V:u16@2,P:Tr4@4", ["s000", "s111d"]),
     ("P:byte,C:u32,V:char,F:i16@2,C:u16,V:i16", ["s011"]),
+    ("F:Ctm8,P:u16,C:u8,V:Amp8", ["s010"]),
 ]
 
 ALL_STATEFUL = ["s000", "s001", "s010", "s011", "s100", "s101", "s110", "s111"]
 
-PLAIN_TYPES = ["u8", "u16", "u32", "u64", "f32", "f64", "char", "byte", "bool", "enumE", "ptr", "B3", "B12", "i8", "i32"]
-NT_TYPES = ["Tr4", "Tr8", "Tr24", "str", "uptr", "TrMv8"]
+PLAIN_TYPES = ["u8", "u16", "u32", "u64", "f32", "f64", "char", "byte", "bool", "enumE", "ptr", "B3", "B12", "i8", "i32", "Amp8", "bptr", "B6", "B20"]
+NT_TYPES = ["Tr4", "Tr8", "Tr24", "str", "uptr", "TrMv8", "Ctm8"]
 ALIGNS = [0, 0, 0, 1, 2, 4, 8, 16, 32, 64]
 
 
@@ -379,7 +383,7 @@ CMP_CONFIGS = [
     ("P:u32,P:f32", "std"), ("P:f64,F:f32", "s000"), ("P:str,F:str", "s000"), ("C:u32,V:str,P:Tr8", "s101"), ("P:Tr4,F:Tr8", "s000"), ("P:B3,P:B12@4", "s111d"),
     ("F:f32,P:u32,C:u64@8,V:f32", "s000"), ("P:u8,C:u16,V:f32@8,P:i8", "std"), ("C:u16,V:f64,C:u8,V:u8", "s000"),
     # class types whose == / < are not bytewise although they have no padding bits
-    ("P:M8,F:M8", "s000"), ("P:u8,P:M8,C:u8,V:M8", "std"),
+    ("P:M8,F:M8", "s000"), ("P:u8,P:M8,C:u8,V:M8", "std"), ("P:Amp8,F:Amp8", "s000"),
 ]
 CMP_RULE = {
     "C13": "per case a pool of 7 logical elements (equal pair, one-item differences, prefix-related spans, values {0,1,2,255} and for floating fields also -0.0 and NaN) and 10 logical vectors over them, each materialised 3x (exact / spare capacity, 3 junk patterns, 2 arenas, 2 allocator types; references, const references, elements); all ordered pairs in 13 operand-kind combinations; ==/!= compared with field-wise equality of freshly made values; non-trivial: the pool contains a pair differing in exactly one item or prefix-related; distinct: hash of the pool",
@@ -446,7 +450,7 @@ REF_CONFIGS = [
     ("P:u32", "std"), ("P:str", "s000"), ("P:u32,P:u16", "s000"), ("P:u32,P:str", "std"), ("P:str,P:u8", "s111"), ("P:u8,P:Tr8,P:u16", "s000"),
     ("P:str,P:u32,P:Tr4", "s010"), ("P:u8,P:u16@2,P:str", "s000"), ("F:u16,P:str,F:u8", "s000"), ("C:u32,V:u16,P:str", "s100"), ("C:u8,V:Tr4,P:u8@4", "s000"),
     ("F:uptr,P:uptr", "s000"), ("C:u64@8,V:uptr,P:u16", "std"), ("F:f32@8,P:u32@16,F:f32", "s001"), ("P:u32,C:u64@8,V:f32", "s000"), ("F:Tr8,C:u8,V:u16@2,P:Tr4@4", "s000"),
-    ("P:TrMv8,F:u8,P:TrMv8", "s011"), ("C:u64@8,V:str,P:str", "s000"), ("P:bool,P:enumE,F:ptr,P:B12@4", "s000d"), ("C:u16,V:B3,C:u32,V:u64@8", "s000"),
+    ("P:Amp8,P:u16,P:Amp8", "s000"), ("F:Ctm8,P:u16", "s000"), ("P:TrMv8,F:u8,P:TrMv8", "s011"), ("C:u64@8,V:str,P:str", "s000"), ("P:bool,P:enumE,F:ptr,P:B12@4", "s000d"), ("C:u16,V:B3,C:u32,V:u64@8", "s000"),
 ]
 REF_RULE = "per case one vector (1..7 elements of equal field sizes) and a model; sequences of <= 30 steps: writes through 8 access paths each cross-read through up to 16 paths, reference copy / move assignment in 5 forms, swap / iter_swap, std::rotate / reverse / swap_ranges against the same algorithm on the model, iterator arithmetic and comparisons against index arithmetic for all index pairs in [0, size()]; non-trivial: a permuting algorithm moved >= 2 elements; distinct: hash of the operation list"
 
@@ -502,6 +506,7 @@ ELEM_CONFIGS = [
     ("C:u8,V:u8,P:u16@4", "s101"), ("C:u64@8,V:uptr,P:uptr", "s000"), ("C:u64@8,V:str,P:str", "stdm"), ("C:u32,V:Tr4,P:Tr24", "s000"), ("P:u8,C:u16,V:Tr8@8,P:TrMv8", "s010"),
     ("F:f32,P:u32,C:u64@8,V:f32", "s000d"), ("F:Tr8,C:u8,V:u16@2,P:Tr4@4", "s111d"), ("C:u32,V:Tr8,C:u8,V:str", "s000"), ("C:u16,V:B3,C:u32,V:u64@8", "s110"),
     # always-equal allocators with distinguishable instances: memory is interchangeable, get_allocator() still follows the traits
+    ("P:Amp8,P:u32", "s000"), ("P:Amp8,C:u32,V:Amp8", "s100"), ("P:Ctm8,C:u32,V:Ctm8", "s000"), ("F:Ctm8,P:u16", "s010"),
     ("P:u32,F:f32", "e100"), ("F:Tr4,P:u8,F:Tr24@8", "e111"), ("C:u32,V:Tr4,P:Tr24", "e100"), ("P:Tr8,P:u16,P:str", "e010"), ("P:u32,C:u64@8,V:f32", "e001"), ("F:str,P:str", "e000"),
 ]
 ELEM_RULE = "per case one source vector (2..5 elements in two size classes plus outliers) and a pool of 4 elements; sequences of <= 30 steps: construction from lvalue / const / rvalue references with and without allocator, copy / move / allocator-extended construction from elements, copy / move assignment (also into moved-from elements), element = reference and reference = element of equal sizes, swap, mutation of either side, destruction; after every step values, independence, allocator identity, block ownership, layout, alignment, object registry and ledger; non-trivial: >= 2 assignments between elements of different field sizes (lists without VaryingSize: >= 2 assignments); distinct: hash of the operation list"
@@ -638,7 +643,7 @@ LAYOUT_CORE = [
     "P:u8,C:u64@8,V:char,C:i32,V:ptr@64,C:u32,V:u32,F:u64@4", "P:u8,F:u16@16,P:u8,F:u32@4,P:u64@8",
     "C:u8,V:u8,P:u16@4", "C:u16,V:B3,C:u32,V:u64@8", "C:u64,V:u8,P:u64@8", "P:byte,C:u32,V:char,F:i16@2,C:u16,V:i16", "F:B12@16", "F:u64@1,F:u8",
     # spans of values whose size is no power of two between strongly aligned neighbours
-    "P:f64@8,F:B12@8,P:f64@8", "C:u64@8,V:B12", "P:u8,C:u32,V:B24@16,P:u32@16", "F:B20@8,C:u16,V:B6@8,P:u64@8", "C:u64@8,V:B12@8",
+    "P:Amp8,F:Amp8@16,P:u8", "C:u32,V:bptr", "P:f64@8,F:B12@8,P:f64@8", "C:u64@8,V:B12", "P:u8,C:u32,V:B24@16,P:u32@16", "F:B20@8,C:u16,V:B6@8,P:u64@8", "C:u64@8,V:B12@8",
 ]
 
 
